@@ -15,11 +15,18 @@ import (
 var repoDir = "/repo"
 var verifDir = "/verif"
 
+// outDir receives evidence, replays and scratch work (default: verifDir);
+// self-tests redirect it so that they never touch the committed evidence.
+var outDir = "/verif"
+
 var repoPkgs = []string{"./", "./segment", "./types", "./fs", "./metadb", "./metrics", "./verifier", "./migrate"}
 
 func LoadProgram() (*Prog, error) {
 	if d := os.Getenv("WALVC_REPO"); d != "" {
 		repoDir = d
+	}
+	if d := os.Getenv("WALVC_OUT"); d != "" {
+		outDir = d
 	}
 	cfg := &packages.Config{
 		Mode:       packages.LoadSyntax,
@@ -234,6 +241,8 @@ func main() {
 		}
 	case "check":
 		os.Exit(cmdCheck(os.Args[2:]))
+	case "selftest":
+		os.Exit(cmdSelftest(os.Args[2:]))
 	default:
 		fmt.Fprintln(os.Stderr, "unknown command", os.Args[1])
 		os.Exit(2)
